@@ -17,6 +17,18 @@ CHECKS = {
              '(theorems hold for every value fillnodata could return).',
         technique='Coq proof (list-sum lemmas + field/lra over Q) + in-Coq correspondence (vm_compute, exact rationals) with KernelModel.fit',
         design='5/C01'),
+    'C04': dict(
+        text='Meta-theorems (Coq, every list of guarded traces, any number of blocks, every schedule): mutual exclusion on every shared '
+             'dataset; a block executes only its own trace; write order and accumulation order are irrelevant for disjoint windows. '
+             'Per-run obligations by computation on the worker programs REGENERATED from the current source (translate/skeleton.py): '
+             'every control path and every fault position of fuse / compare / stats workers is guarded, writes no shared state, locks are '
+             'created once. Tie: regenerated model + runtime trace check in Coq (each observed per-block lock/access sequence must be an '
+             'outcome of the generated program); real runs under a controlled random scheduler (2..8 threads) hashed against the '
+             'single-threaded result and lockset-checked.',
+        note='the GIL / GDAL internals are not modelled (protocol-level theorem); translator name map is trusted; compare/stats equality '
+             'up to float32 accumulation order (1e-4 on r2), N exact.',
+        technique='Coq meta-theorems over an interleaving semantics + model regenerated from source by a Python-ast translator + runtime trace correspondence',
+        design='5/C04'),
     'C05': dict(
         text='Theorems (Coq): overlap_for_kernel k = (k+1)/2 >= half-kernel + 1; seam lemma - the fit (all sums, parameters, R2) at every '
              'pixel of an output window computed from the block read with the overlap equals the whole-image fit, for every image, mask, '
@@ -56,6 +68,27 @@ CHECKS = {
         note='partial: H_valid_only for GDAL resampling is exercised, not proved; alpha only on integer images (GDAL rule).',
         technique='Coq proof (congruence of kernel sums on the joint mask; read_window spec) + correspondence + paired-run oracle',
         design='5/C08'),
+    'C09': dict(
+        text='Meta-theorems (Coq): no deadlock (progress), termination within the total trace length for every schedule, all locks free at '
+             'the end, result() makes every block failure visible (pool and sequential), Ok means no block failed. Per-run obligations on the '
+             'regenerated programs: every faulted trace (exception at any dataset call / local step, with Python unwinding) is guarded, a '
+             'fault is always visible, an unfailed block performed every read and write, coordinators call result() and swallow nothing, '
+             'output files close in finally, the three CLI commands convert exceptions to click.Abort. Tie: regenerated + runtime traces '
+             'checked in Coq; fault injected at the k-th call on each dataset x block x thread count for fuse (with re-use of the reader), '
+             'compare, stats and the CLI exit status.',
+        note='liveness beyond the protocol (hang inside GDAL) is a wall-clock test; faults in tags/overviews/close are outside the property.',
+        technique='Coq meta-theorems (invariant, progress, measure) + regenerated model + fault-injection correspondence',
+        design='5/C09'),
+    'C10': dict(
+        text='Theorems (Coq): if both existence checks precede every open, then without overwrite an existing corrected or parameter file '
+             'yields FileExistsError with the file system unchanged, str and Path alike; with overwrite the outputs are recreated whatever '
+             'was there, and block writes make the content independent of the initial content. Per-run obligations on the regenerated '
+             '_out_files / rio.open survey: checks first, both opened in w mode, closed in finally, paths coerced, no input path ever opened '
+             'for writing. Tie: regenerated + run_entry evaluated in Coq against real process() calls; histories of 1..4 calls over '
+             'pre-seeded directories with every file hashed before/after and successful calls compared with a fresh run; CLI runs.',
+        note='format side-cars (.aux.xml/.msk/.ovr) whitelisted; GDAL truncation on open(w) trusted.',
+        technique='Coq proof over a file-protocol model regenerated from source + history-based correspondence',
+        design='5/C10'),
     'C16': dict(
         text='Theorems (Coq, rational geometry, unbounded): the covers_bounds decision is true iff the source footprint lies inside the '
              'reference footprint on all four sides (right/bottom to within the 1e-6 px float slack); containment / same grid is '
